@@ -53,6 +53,28 @@ CLAIMS = {
             "byte value, all pairs of one-byte digests); the library's parameter table and its digit encoder (hook) are validated against the formulas for "
             "digests enumerated by GenDigests.tla",
             "TLC exhaustive lemma checking (MC_Ots) + hook trace validation"),
+    "C10": ("model_checking", "SpecKeygen/SpecSign do not take the aux buffer as an argument: every keygen/sign event with ANY buffer (all lengths 0..full+n, fresh, "
+            "garbage, other seed, padded, truncated, every single-bit corruption of a valid buffer, left over from signing) is validated byte-for-byte "
+            "against the no-aux reference; after keygen on a fresh buffer the shrunk length, level word, cached levels and MAC are recomputed by Aux.tla",
+            "byte-exact trace validation against TLA+ reference over enumerated aux-buffer classes"),
+    "C13": ("model_checking", "MC_Arith checks on the spec that the mathematical digit rule (bit slices of the 64-bit counter) equals the shift-and-mask algorithm, "
+            "that digits recompose, successor/last/lifetime arithmetic and its agreement with integer arithmetic, for all height tuples and boundary counters "
+            "(tall lists included); the library's three pure functions are replayed through the hook for tuples x boundary counters the spec enumerates, and "
+            "end to end through the leaf-index fields of signatures for mixed-height shapes",
+            "TLC exhaustive checking of counter arithmetic (MC_Arith) + hook trace validation"),
+    "C14": ("model_checking", "the limits are definitions of the specification (MaxLevels, MaxHeightAt, MinWAt) that only gate acceptance; the same harness is built "
+            "under several HBS_LMS_* settings and every build's keygen/sign/verify/lifetime/aux/exhaustion events are validated against the SAME reference "
+            "(hence identical keys and signatures), while lists one step beyond each limit must be refused with an error through every entry point",
+            "trace validation of multiple build configurations against one TLA+ reference"),
+    "C15": ("model_checking", "FastVerify.tla (PlusCal) explores every interleaving/arrival order of workers and collector; on the real code, fast_verify builds with several "
+            "thread counts/budgets are driven over 6 hashes x W x message lengths and TLC requires: refusal cases consume nothing and leave the message untouched, "
+            "only the trailer changes, the signature is byte-for-byte the ordinary reference signature of the RETURNED message, the callback protocol holds, "
+            "and (verbose) hash_iterations equals the spec's digit sum",
+            "TLC model checking of the worker/collector race + byte-exact trace validation of sign_mut"),
+    "C16": ("other", "drop-time wiping is a structural fact of Rust types that a TLA+ model cannot decide on its own: a memory probe (hook + harness: populated value "
+            "dropped in place inside zeroed storage, storage scanned; zeroize() field scan) produces events that TLC judges against the SecretLifecycle/SecretTable "
+            "specification; the exhausted-key clause is decided by trace validation of complete lifetimes (callback argument = WipedKey)",
+            "memory probe events judged by TLC against SecretLifecycle.tla; lifetime walks for the wiped key"),
 }
 
 ENGINE = {"name": "tla-trace", "path": "spec/", "kind_free_text":
